@@ -272,7 +272,7 @@ Section Sound.
      with the number of arguments the FormulaManager constructors guarantee *)
   Definition op_ok (o : op) (n : nat) : bool :=
     match o with
-    | ONot | OToReal | OBVToNat | OBV BNot _ | OBV BNeg _ | OStr SLength => Nat.eqb n 1
+    | ONot | OToReal | OBVToNat | OBV BNot _ | OBV BNeg _ | OStr SLength | OStr SToInt | OStr SFromInt => Nat.eqb n 1
     | OImplies | OIff | OMinus | ODiv | OLe | OLt | OEquals | OBVRel _ | OSelect
     | OBV _ _ | OStr SContains | OStr SPrefixOf | OStr SSuffixOf | OStr SCharAt => Nat.eqb n 2
     | OIte | OStore | OStr SIndexOf | OStr SReplace | OStr SSubstr => Nat.eqb n 3
@@ -330,12 +330,23 @@ Section Sound.
           | th "str.contains" (FExact 2 (OStr SContains)) Hv | th "str.indexof" (FExact 3 (OStr SIndexOf)) Hv
           | th "str.replace" (FExact 3 (OStr SReplace)) Hv | th "str.substr" (FExact 3 (OStr SSubstr)) Hv
           | th "str.prefixof" (FExact 2 (OStr SPrefixOf)) Hv | th "str.suffixof" (FExact 2 (OStr SSuffixOf)) Hv
+          | th "str.to_int" (FExact 1 (OStr SToInt)) Hv | th "str.from_int" (FExact 1 (OStr SFromInt)) Hv
           | th "str.at" (FExact 2 (OStr SCharAt)) Hv ];
           destruct vals as [|a [|b [|c [|d r]]]]; try discriminate Hok; reflexivity.
       - (* select *) th "select" (FExact 2 OSelect) Hv. destruct vals as [|a [|b [|c r]]]; try discriminate Hok. reflexivity.
       - (* store *) th "store" (FExact 3 OStore) Hv. destruct vals as [|a [|b [|c [|d r]]]]; try discriminate Hok. reflexivity.
       - (* / *) th "/" FRealDiv Hv. destruct vals as [|a [|b [|c r]]]; try discriminate Hok. cbn. now rewrite vdiv_J.
       - (* bv2nat *) th "bv2nat" (FExact 1 OBVToNat) Hv. destruct vals as [|a [|b r]]; try discriminate Hok. reflexivity.
+    Qed.
+
+    (* Div: written "div" on Int operands, "/" otherwise; both are Sem.v's vdiv *)
+    Lemma div_sound name ss vals :
+      name = "/" \/ name = "div" -> List.length vals = 2%nat ->
+      all_some (map (seval Sg I rho) ss) = Some vals ->
+      seval Sg I rho (SList (Atom name :: ss)) = Some (op_sem J ODiv vals).
+    Proof.
+      intros [-> | ->] Hl Hv; [th "/" FRealDiv Hv | th "div" FIntDiv Hv];
+        destruct vals as [|a [|b [|c r]]]; try discriminate Hl; cbn; now rewrite vdiv_J.
     Qed.
   End Node.
 
@@ -610,7 +621,7 @@ Section Sound.
       + cbn [map all_some]. now rewrite (Ha _ _ _ Wa HR HB HJ), (Hb _ _ _ Wb HR HB HJ).
     - (* symbol *)
       cbn [wfp] in HW. destruct HW as (-> & Hn & Hs). apply good_name_inv in Hn. destruct Hn as (Hsym & Hc & _).
-      cbn [print_tree map node_sexp op_head leaf_sexp seval eval].
+      cbn [print_tree map term_sexp node_sexp op_head leaf_sexp seval eval].
       rewrite (eval_atom_symbol rho _ _ Hsym). destruct HR as (HR & _). specialize (HR n).
       unfold var in *. destruct (assoc n bound) as [ty'|].
       + subst ty'. now rewrite HR.
@@ -618,11 +629,19 @@ Section Sound.
     - (* function *)
       cbn [wfp] in HW. destruct HW as (Hn & Hnb & Hd & (ps & r & -> & Hlen & Hne) & Hrec).
       apply good_name_inv in Hn. destruct Hn as (Hsym & _ & Ht). apply symbol_atom_sym in Hsym.
-      cbn [print_tree node_sexp op_head eval].
+      cbn [print_tree term_sexp node_sexp op_head eval].
       rewrite (seval_app _ _ _ (sym_head_plain _ _ Hsym)), Hsym, (args_sound args bound rho J IH Hrec HR HB HJ).
       unfold apply_sym. destruct HR as (HR & HF & _). specialize (HR n). unfold var in *. rewrite Hnb in HR.
       destruct HR as [-> _]. rewrite Ht, Hd, map_length, Hlen, Nat.eqb_refl, HF.
       destruct args; [contradiction Hne; reflexivity|]. reflexivity.
+    - (* div *)
+      cbn [wfp] in HW. destruct HW as [Hc Hrec]. destruct Hc as [[_ Hc]|Hok]; [discriminate Hc|].
+      change (eval J (T ODiv args)) with (op_sem J ODiv (map (eval J) args)).
+      change (print_tree (T ODiv args)) with (SList (Atom (div_name (T ODiv args)) :: map print_tree args)).
+      eapply div_sound; eauto.
+      + unfold div_name. destruct (tc (T ODiv args)) as [[]|]; auto.
+      + rewrite map_length. now apply Nat.eqb_eq.
+      + now apply (args_sound args bound rho J).
   Qed.
 End Sound.
 
@@ -630,14 +649,15 @@ End Sound.
 (* Full statement (DESIGN.md C07), for the record:
      print_tree_sound : tc t = Some ty -> printable_names t ->
                         std_eval Sigma_t I (print_tree t) = Some (eval I t)     for ALL terms t.
-   It is FALSE of the faithful model (see the _refuted lemmas below: str.to.int, int.to.str, pow
-   are not SMT-LIB symbols; Int division is written with the Real-only function /), so what is
-   proved is the _partial statement: [wfp Sg [] t] is the explicit fragment predicate
+   It is FALSE of the faithful model (see the _refuted lemma below: pow is not an SMT-LIB symbol;
+   before the repairs of 2026-09 also str.to.int, int.to.str and Int division written with the
+   Real-only function /, now positive: print_tree_repaired_spellings), so what is proved is the
+   _partial statement: [wfp Sg [] t] is the explicit fragment predicate
    (core/SmtStd.v-independent, syntactic):
-     - every operator except Pow, StrToInt, IntToStr, the indexed BV operators (extract, rotate,
-       extend), string constants and array values (stages not proved yet) - i.e. Bool, ITE,
-       Equals, Int/Real arithmetic and constants, quantifiers, UF, BV constants and all
-       non-indexed BV operators, select/store, the other string operators;
+     - every operator except Pow, the indexed BV operators (extract, rotate, extend), string
+       constants and array values (stages not proved yet) - i.e. Bool, ITE, Equals, Int/Real
+       arithmetic (Int and Real division) and constants, quantifiers, UF, BV constants and all
+       non-indexed BV operators, select/store, all string operators;
      - constructor arities (n-ary operators have >= 2 arguments), Real constants with positive
        denominator, BV constants in range;
      - every symbol name is [good_name] (its quoted form reads back as that symbol; it is not a
@@ -675,27 +695,24 @@ Proof. reflexivity. Qed.
 (* ------------------------------------------------ refutations: spellings that are not SMT-LIB *)
 Definition sig_sxr : sig := {| sg_sorts := []; sg_funs := [("s", TStr); ("x", TInt); ("y", TInt); ("r", TReal)] |}.
 
-Lemma print_tree_sound_refuted_str_to_int :
-  exists t, tc t = Some TInt /\ print_tree t = SList [Atom "str.to.int"; Atom "s"] /\
-            forall I, std_eval sig_sxr I (print_tree t) = None.
-Proof. exists (T (OStr SToInt) [TSym "s" TStr]). repeat split. Qed.
-
-Lemma print_tree_sound_refuted_int_to_str :
-  exists t, tc t = Some TStr /\ print_tree t = SList [Atom "int.to.str"; Atom "x"] /\
-            forall I, std_eval sig_sxr I (print_tree t) = None.
-Proof. exists (T (OStr SFromInt) [TSym "x" TInt]). repeat split. Qed.
+(* the repaired spellings (str.to_int, str.from_int, div on Int) are in the fragment *)
+Definition ex_term2 : term :=
+  T OAnd [ T OEquals [T (OStr SToInt) [TSym "s" TStr]; T ODiv [TSym "x" TInt; TSym "y" TInt]];
+           T OEquals [T (OStr SFromInt) [TSym "x" TInt]; TSym "s" TStr];
+           T OLt [T ODiv [TSym "r" TReal; TSym "r" TReal]; TRealC 1 2] ].
+Example print_tree_repaired_spellings :
+  wfp sig_sxr [] ex_term2 /\ tc ex_term2 = Some TBool /\
+  flatten (print_tree ex_term2) =
+    ["("; "and"; "("; "="; "("; "str.to_int"; "s"; ")"; "("; "div"; "x"; "y"; ")"; ")";
+     "("; "="; "("; "str.from_int"; "x"; ")"; "s"; ")";
+     "("; "<"; "("; "/"; "r"; "r"; ")"; "("; "/"; "1.0"; "2.0"; ")"; ")"; ")"] /\
+  std_sort sig_sxr (print_tree ex_term2) = Some TBool.
+Proof. split; [cbn; repeat split; try reflexivity; try discriminate; eauto | repeat split]. Qed.
 
 Lemma print_tree_sound_refuted_pow :
   exists t, tc t = Some TReal /\ print_tree t = SList [Atom "pow"; Atom "r"; Atom "2.0"] /\
             forall I, std_eval sig_sxr I (print_tree t) = None.
 Proof. exists (T OPow [TSym "r" TReal; TRealC 2 1]). repeat split. Qed.
-
-(* Int division: the text is (/ x y); SMT-LIB's / is Real x Real -> Real, so the text is ill-sorted
-   (the untyped evaluation still gives the quotient: that is why the defect is in the sorting) *)
-Lemma print_tree_sorted_refuted_int_div :
-  exists t, tc t = Some TInt /\ print_tree t = SList [Atom "/"; Atom "x"; Atom "y"] /\
-            std_sort sig_sxr (print_tree t) = None.
-Proof. exists (T ODiv [TSym "x" TInt; TSym "y" TInt]). repeat split. Qed.
 
 (* ------------------------------------------------ let: what the DAG printer's output means *)
 (* Full statement, for the record:
@@ -758,31 +775,37 @@ Proof. intros Sg I t rho' st H. unfold std_eval, print_dag. now apply wrap_lets_
 
 (* ========================================================================= scripts *)
 (* Full statement, for the record:  script_wellformed : std_script_ok (script_of dag logic t) = true
-   for every t with printable names.  FALSE of the faithful model: *)
+   for every t with printable names.  Before the repairs of 2026-09 it was FALSE of the faithful
+   model (a parametric sort was declared once per instance; a custom sort occurring only inside
+   the arguments of a function application or as the index sort of an array value was never
+   declared); the two witnesses are now well-formed scripts: *)
 Definition TList (a : ty) := TUser "List" [a].
 Definition param_witness : term :=
   T OAnd [T OEquals [TSym "l1" (TList TInt); TSym "l2" (TList TInt)];
           T OEquals [TSym "k1" (TList TReal); TSym "k2" (TList TReal)]].
-Lemma script_wellformed_refuted_param_sort :
+Example script_wellformed_param_sort :
   tc param_witness = Some TBool /\
-  (forall dag, std_script_ok (script_of dag "QF_UF" param_witness) = false) /\
+  (forall dag, std_script_ok (script_of dag "QF_UF" param_witness) = true) /\
   map flatten (firstn 3 (script_of false "QF_UF" param_witness)) =
-    [["("; "set-logic"; "QF_UF"; ")"]; ["("; "declare-sort"; "List"; "1"; ")"]; ["("; "declare-sort"; "List"; "1"; ")"]].
+    [["("; "set-logic"; "QF_UF"; ")"]; ["("; "declare-sort"; "List"; "1"; ")"];
+     ["("; "declare-fun"; "l1"; "("; ")"; "("; "List"; "Int"; ")"; ")"]].
 Proof. split; [reflexivity|]. split; [intros []; vm_compute; reflexivity | vm_compute; reflexivity]. Qed.
 
 Definition undeclared_sort_witness : term :=
-  T (OFunction "p" (TFun [TInt] TBool))
-    [T OIte [T OEquals [TSym "u1" (TUser "U" []); TSym "u2" (TUser "U" [])]; TIntC 1; TIntC 2]].
-Lemma script_wellformed_refuted_sort_not_declared :
+  T OAnd [ T (OFunction "p" (TFun [TInt] TBool))
+             [T OIte [T OEquals [TSym "u1" (TUser "U" []); TSym "u2" (TUser "U" [])]; TIntC 1; TIntC 2]];
+           T OEquals [T (OArrayValue (TUser "my sort" [])) [TIntC 0]; TSym "a" (TArr (TUser "my sort" []) TInt)] ].
+Example script_wellformed_sorts_declared :
   tc undeclared_sort_witness = Some TBool /\
-  (forall dag, std_script_ok (script_of dag "QF_UFLIA" undeclared_sort_witness) = false) /\
-  custom_types undeclared_sort_witness = [].
+  (forall dag, std_script_ok (script_of dag "QF_UFLIA" undeclared_sort_witness) = true) /\
+  map flatten (firstn 2 (List.tl (script_of false "QF_UFLIA" undeclared_sort_witness))) =
+    [["("; "declare-sort"; "U"; "0"; ")"]; ["("; "declare-sort"; "|my sort|"; "0"; ")"]].
 Proof. split; [reflexivity|]. split; [intros []; vm_compute; reflexivity | vm_compute; reflexivity]. Qed.
 
-(* ... and true, by computation, on the example term above (both printers): the hypotheses of a
-   general theorem are satisfiable.  The general statement needs the static-sorting half
-   (std_sort Sigma_t (print t) = Some Bool), which is checked on every correspondence case by
-   evaluating std_script_ok inside Coq, not proved. *)
+(* The general statement needs the static-sorting half (std_sort Sigma_t (print t) = Some Bool),
+   which is checked on every correspondence case by evaluating std_script_ok inside Coq, not
+   proved. *)
 Example script_wellformed_example :
-  std_script_ok (script_of false "ALL" ex_term) = true /\ std_script_ok (script_of true "ALL" ex_term) = true.
-Proof. split; vm_compute; reflexivity. Qed.
+  std_script_ok (script_of false "ALL" ex_term) = true /\ std_script_ok (script_of true "ALL" ex_term) = true /\
+  std_script_ok (script_of false "ALL" ex_term2) = true /\ std_script_ok (script_of true "ALL" ex_term2) = true.
+Proof. repeat split; vm_compute; reflexivity. Qed.
